@@ -145,8 +145,22 @@ func (cl *Loader) reset() {
 	cl.imports = make(map[string]bool)
 }
 
+// loadedAs names a file by where it really is: reached through a symbolic link, the same file is the same
+// import (a file that is missing keeps the name it was given; loading it reports the error)
+func loadedAs(file string) string {
+	if utils.IsURL(file) {
+		return file
+	}
+
+	if real, err := filepath.EvalSymlinks(file); err == nil {
+		return real
+	}
+
+	return file
+}
+
 func (cl *Loader) load(file string) (config map[string]interface{}, err error) {
-	cl.imports[file] = true
+	cl.imports[loadedAs(file)] = true
 
 	if utils.IsURL(file) {
 		config, err = cl.readURL(file)
@@ -186,7 +200,7 @@ func (cl *Loader) load(file string) (config map[string]interface{}, err error) {
 				raw, err = cl.load(v)
 			} else {
 				importFile := path.Join(importDir, v)
-				if cl.imports[importFile] {
+				if cl.imports[loadedAs(importFile)] {
 					continue
 				}
 				fi, statErr := os.Stat(importFile)
@@ -302,7 +316,7 @@ func (cl *Loader) loadDir(dir string) (map[string]interface{}, error) {
 		}
 
 		importFile := filepath.Join(dir, entry.Name())
-		if cl.imports[importFile] {
+		if cl.imports[loadedAs(importFile)] {
 			continue
 		}
 
